@@ -305,6 +305,8 @@ class Body:
                 dq.append(s_)
         while dq:
             b = dq.popleft()
+            if b in cut_blocks:
+                continue  # a start that is itself cut: the path ends here
             for t in self.succ[b]:
                 if (b, t) in cut_edges or t in cut_blocks or t in seen:
                     continue
